@@ -639,6 +639,44 @@ func (a *A) globalWindowBarrier() map[ssa.Value]bool {
 	if !ok1 || !ok2 {
 		return out
 	}
+	isGlobalGuard := func(c ssa.Value) bool {
+		bo, ok := c.(*ssa.BinOp)
+		if !ok || bo.Op != token.EQL {
+			return false
+		}
+		k, ok := bo.Y.(*ssa.Const)
+		return ok && k.Value != nil && strings.Contains(k.Value.ExactString(), "global") && isFieldOf(TermOf(bo.X, nil), "types.WindowConfig", "Type")
+	}
+	// a helper whose every call site is on that branch of processWindowBatch reads the same rows
+	for _, h := range a.helpersOf(fn) {
+		node := a.CG().Nodes[h]
+		if node == nil || len(node.In) == 0 {
+			continue
+		}
+		all := true
+		for _, e := range node.In {
+			if e.Caller.Func != fn || !guardedByValue(e.Site.Block(), isGlobalGuard, true) {
+				all = false
+			}
+		}
+		if !all {
+			continue
+		}
+		allInstrs(h, func(in ssa.Instruction) {
+			switch x := in.(type) {
+			case *ssa.UnOp:
+				if fa, ok := x.X.(*ssa.FieldAddr); ok && x.Op == token.MUL {
+					if f := fieldVarOf(fa); f != nil && f.Name() == "Data" {
+						out[x] = true
+					}
+				}
+			case *ssa.Field:
+				if f := fieldVarOf(x); f != nil && f.Name() == "Data" {
+					out[x] = true
+				}
+			}
+		})
+	}
 	allInstrs(fn, func(in ssa.Instruction) {
 		// loads of Row.Data in blocks dominated by the true edge of Type == TypeGlobal
 		var v ssa.Value
